@@ -299,7 +299,18 @@ def findings(prop: str) -> dict[str, str]:
     return out
 
 
-def check(prop: str) -> dict:
+def write_gen(prop: str, new: dict) -> bool:
+    from translate.base import write_if_changed
+    items = ", ".join('"' + k.replace("\\", "/").replace('"', "'") + '"' for k in sorted(new))
+    text = ("-- REGENERATED on every run by harness/translate/carried.py from the current source (do not edit)\n"
+            f"-- property {prop}: findings of the carried-state analysis that are not on record in carried_baseline.json\n"
+            "namespace TopSearch.Gen.Carried\n"
+            f"def unrecorded : List String := [{items}]\n"
+            "end TopSearch.Gen.Carried\n")
+    return write_if_changed("Carried.lean", text)
+
+
+def check(prop: str, write: bool = False) -> dict:
     try:
         base = json.loads(BASELINE.read_text())
     except (OSError, ValueError) as e:
@@ -307,6 +318,8 @@ def check(prop: str) -> dict:
     got = findings(prop)
     status = {}
     new = {k: v for k, v in got.items() if k not in base}
+    if write:
+        write_gen(prop, new)
     status["Carried.entry_points"] = f"{len(ENTRIES.get(prop, []))} entry points, {len(MODULES.get(prop, []))} modules screened; " \
                                      f"{len(got) - len(new)} recorded finding(s), each with its reason in carried_baseline.json"
     for k, v in sorted(new.items()):
